@@ -32,8 +32,9 @@ def run(rng, tier, res=None):
         inserted, returned = [], []
         in_contract = True
         stop = False
+        crashed = None
         for _ in range(nops):
-            if stop:
+            if stop or crashed:
                 break
             white = [x for x in range(size) if h.color[x] == 0]
             gray = [x for x in range(size) if h.color[x] == 1]
@@ -66,7 +67,10 @@ def run(rng, tier, res=None):
                 else:
                     toks += [0, x]
                 full_before = h.is_full()
-                ret = h.insert(x)
+                try:
+                    ret = h.insert(x)
+                except Exception as ex:
+                    crashed = f"insert raised {type(ex).__name__}"; break
                 if ret is not (not full_before):
                     res.violations.append({"property": "C05", "what": "insert result does not reflect fullness"})
                 if ret and in_contract:
@@ -74,7 +78,12 @@ def run(rng, tier, res=None):
                 segs.append(_obs(h, 1 if ret else 0))
                 res.hit("insert_ok" if ret else "insert_full")
             elif ch == "rem":
-                ret = h.remove()
+                try:
+                    ret = h.remove()
+                    if ret is not False and not (0 <= ret < size):
+                        crashed = f"remove returned {ret!r}, not a queued identifier"; break
+                except Exception as ex:
+                    crashed = f"remove raised {type(ex).__name__}"; break
                 toks += [1]
                 if ret is False:
                     res.hit("remove_empty")
@@ -118,20 +127,34 @@ def run(rng, tier, res=None):
                     shadow[x] = c; inserted.append(x)
                 elif h.color[x] == 1:
                     res.hit("update_gray"); shadow[x] = c
-                h.update(x, c)
+                try:
+                    h.update(x, c)
+                except Exception as ex:
+                    crashed = f"update raised {type(ex).__name__}"; break
                 toks += [2, x, c]
                 segs.append(_obs(h, 0))
             # truthfulness (C05) on in-contract histories
             if in_contract:
                 if h.is_empty() != (len(shadow) == 0) or h.is_full() != (len(shadow) == size):
                     res.violations.append({"property": "C05", "what": "is_empty/is_full not truthful"})
+        if crashed:
+            if in_contract:
+                res.violations.append({"property": "C05", "what": crashed + " on a history within the contract"})
+            for v in res.violations:
+                v.setdefault("replay", {"stream": "heap", "tokens": list(toks), "size": size, "max": is_max})
+            continue
         if in_contract:
             if len(returned) != len(set(returned)):
                 res.violations.append({"property": "C05", "what": "an element was returned twice"})
             # drain: everything still queued must come out exactly once
             rest = []
             while True:
-                ret = h.remove()
+                try:
+                    ret = h.remove()
+                    if ret is not False and not (0 <= ret < size):
+                        res.violations.append({"property": "C05", "what": f"remove returned {ret!r}, not a queued identifier"}); break
+                except Exception as ex:
+                    res.violations.append({"property": "C05", "what": f"remove raised {type(ex).__name__} while draining"}); break
                 toks += [1]
                 segs.append(_obs(h, -1 if ret is False else ret))
                 if ret is False:
